@@ -120,7 +120,10 @@ SPEC = list("\\.+*?()|[]{}^$#")
 A17 = SPEC + ["a", "b", "1", "-", " ", "\n", "é", "€", "𝄞", "&", "~", "/", ":", ",", "<", ">", "'", "=", "!",
                 # every other ASCII whitespace / control class and the remaining punctuation: none of them is special
                 "\t", "\r", "\x0b", "\x0c", "\x00", "\x1b", "\x7f", "_", "@", '"', "%", "`", ";"]
-HOSTS = ["%s", "x%s", "%sy", "(?=%s)", "(?<!q)%s", "(a)?%s\\1?", "(?>%s)z", "(?:%s){2}", "[ab]%s"]
+HOSTS = ["%s", "(?x)%s", "(?x:%s)(?=)", "x%s", "%sy", "(?=%s)", "(?<!q)%s", "(a)?%s\\1?", "(?>%s)z", "(?:%s){2}", "[ab]%s"]
+# hosts in which the embedded escape(s) must still find exactly str::find(s): alone, and under the
+# free-spacing flag (plain and VM-compiled), where an unescaped '#' would open a comment
+FIND_HOSTS = ("%s", "(?x)%s", "(?x:%s)(?=)")
 
 
 def run_c17(tier, seed, replay=None):
@@ -168,7 +171,7 @@ def run_c17(tier, seed, replay=None):
         if not s:
             continue
         tx = texts + [s, "x" + s + "y", s + s, "q" + s]
-        for h in (HOSTS if tier == "thorough" or len(s) <= 2 else HOSTS[:4]):
+        for h in (HOSTS if tier == "thorough" or len(s) <= 2 else HOSTS[:6]):
             pat = h % esc[s]
             for t in tx:
                 lines.append("%s\t%s\t-\t0\tfind:0" % (hexs(pat), hexs(t)))
@@ -180,19 +183,21 @@ def run_c17(tier, seed, replay=None):
         if v[0].startswith("new=err") or len(v) < 2:
             viol.append({"kind": "input", "string": s, "host": h, "impl": o, "reference": "compiles", "check": "Regex::new(host(escape(s))) compiles"})
             continue
-        if h != "%s":
+        if h not in FIND_HOSTS:
             continue
+        if h != "%s" and any(c in " \t\n\r\x0b\x0c" for c in s):
+            continue      # free-spacing hosts: escape does not (and is not documented to) protect whitespace
         nfind += 1
         tb, sb = t.encode(), s.encode()
         k = tb.find(sb)
         want = "none" if k < 0 else "%d-%d" % (k, k + len(sb))
         if v[1] != want:
-            viol.append({"kind": "input", "string": s, "text": t, "impl": v[1], "reference": want, "check": "Regex::new(escape(s)).find(t) = t.find(s)"})
+            viol.append({"kind": "input", "string": s, "text": t, "host": h, "impl": v[1], "reference": want, "check": "Regex::new(host(escape(s))).find(t) = t.find(s), host = the bare pattern or a free-spacing group"})
     # embedded hosts: compare with the same host around a literal built by hand (one literal per char)
     res.oblige("property: escape(s) compiles (plain and embedded in fancy hosts), parses to the literal chain of s, finds exactly str::find(s) (%d searches), borrows iff nothing to escape" % nfind, not viol)
     res.cov.update(evaluations=len(strs) + len(lines), distinct_nontrivial=sum(1 for s in strs if any(c in s for c in SPEC)),
                    rule="strings = all strings up to length 2 over the 15 meta-characters plus letters, digit, '-', space, newline, 2/3/4-byte characters and punctuation that regex-syntax treats specially, seeded random strings of length 3..9; each alone and embedded in plain and fancy hosts; non-trivial = contains a meta-character",
-                   samples=[{"string": s} for s in (strs[3], strs[40], strs[-1])], exhaustive=False)
+                   samples=[{"string": s} for s in ((strs[3], strs[40], strs[-1]) if len(strs) > 40 else strs[:3])], exhaustive=False)
     res.notes.update(theorem_assumptions=closed)
     res.assumptions = ["PARTIAL: that parse(escape(s)) is the literal chain is established on the parser model by T1 + the enumeration, not yet by a theorem; that regex-syntax accepts push_quoted's output for delegated literals is a property of the dependency (validated)"]
     broken = [x for x, ok in res.obligations if not ok]
